@@ -119,6 +119,16 @@ Definition check_cli2 : rd verdict :=
     [ prop_ok 252 alive [n; hung];
       prop_ok 251 dup_free [n; hung] ]).
 
+(* concurrent Stop calls on the real scheduler: per round exactly one initiator, none afterwards *)
+Definition check_stopstress : rd verdict :=
+  callers <- getz ;; rounds <- getz ;; bad <- getz ;; maxtrue <- getz ;; late <- getz ;;
+  ret (combine_verdicts [ prop_ok 205 (bad =? 0) [callers; rounds; bad; maxtrue]; prop_ok 209 (late =? 0) [late] ]).
+
+(* an attack of an Attacker with helper goroutines (DNS cache refresh) that ended on its own *)
+Definition check_optleak : rd verdict :=
+  how <- getz ;; results <- getz ;; left <- getz ;;
+  ret (prop_ok 206 (left =? 0) [how; results; left]).
+
 Definition getcase_with (mw : Z) : rd acase :=
   iw <- getz ;; d <- getz ;; fl <- getlist getz ;;
   steps <- getlist (getpair getaction getsnap) ;; fin <- getfinal ;;
@@ -127,6 +137,7 @@ Definition getcase_with (mw : Z) : rd acase :=
 Definition check_for (lo hi : Z) : rd verdict :=
   mw <- getz ;;
   if mw =? 0 then check_cli else if mw =? -1 then check_cli2 else
+  if mw =? -2 then check_stopstress else if mw =? -3 then check_optleak else
   cs <- getcase_with mw ;;
   let c := a_cfg cs in
   let k := fold_left (step_acc c) (a_steps cs) acc0 in
